@@ -767,6 +767,8 @@ func (r *replicateChannelManager) startReadChannel(ctx context.Context, sourceIn
 			zap.String("mapping_value", channelMappingValue))
 		r.forwardChannel(channelMappingValue)
 	}
+	// record the handler of the collection, otherwise the collection can not be found when it is stopped
+	r.updateSourcePChannelMap(sourceInfo.CollectionID, sourceInfo.PChannel, channelMappingKey)
 	// the msg dispatch client maybe blocked, and has get the target channel,
 	// so we can use the goroutine and release the channelLock
 	go channelHandler.AddCollection(taskID, sourceInfo, targetInfo)
